@@ -6,24 +6,28 @@ class C28(Spec):
     drv = "drv_c28"
     harness = "h_c28"
     lean_deps = ("C25", "C27", "C20")
-    required_theorems = ("C28.chain_tx_unexpired_fee_chainid", "C28.chain_tx_signed_full_false",
-                         "C28.chain_tx_signed_partial", "C28.chain_tx_unique_partial", "C28.produced_block_clean")
-    partial = ("C28.chain_tx_signed_partial", "C28.chain_tx_unique_partial")
-    refuted = ("C28.chain_tx_signed_full_false",)
+    required_theorems = ("C28.chain_tx_unexpired_fee_chainid", "C28.chain_tx_signed",
+                         "C28.chain_tx_signed_regression_old_preExec", "C28.chain_tx_unique_partial",
+                         "C28.produced_block_clean")
+    partial = ("C28.chain_tx_unique_partial",)
+    refuted = ()
     quick_timeout = 900
     thorough_timeout = 5400
     level_text = ("Lean theorems about the C27 chain model instantiated with a model of PreExecBlock's order of checks "
-                  "(signature verification only for transactions whose Hash() the mempool does not report; DelDupTx + chain "
+                  "(signature verification for every transaction except those the mempool holds as the very same signed "
+                  "transaction — repo fix 28243c8; DelDupTx + chain "
                   "lookup through the tx index / the TxHeight window cache; executor checkTx: expiry at block height/time, fee, "
                   "chain id; tx root; state root; consensus check): for ANY sequence of deliveries (valid or not, any order, "
                   "reorganisations) and mempool events, every transaction on the best chain is unexpired and passes fee and "
                   "chain-id checks (chain_tx_unexpired_fee_chainid); no transaction hash occurs twice and the tx index is "
                   "exact (chain_tx_unique_partial: no TxHeight transactions, one body per block hash); every transaction is "
-                  "correctly signed IF no two instances of one hash differ in signature validity (chain_tx_signed_partial); what the "
+                  "correctly signed, assuming only that the mempool admits verified transactions — re-insertion by "
+                  "mempool.delBlock is covered by the proof (chain_tx_signed, full); what the "
                   "node keeps of a body offered to its own block production is duplicate-free, unexpired and fee/chain-id "
                   "clean in any state (produced_block_clean). "
-                  "The unconditional signature clause is FALSE of model and code (S-C28, refuted on a witness and replayed "
-                  "on the real node: victim debited). Tie: generated submission histories (duplicates in one block / later "
+                  "S-C28 (exemption by Hash() alone: key-substituted copy of a pooled transaction accepted, victim debited) was "
+                  "found by this check, repaired in /repo (28243c8) and is kept as a regression witness over the old rule "
+                  "and as corpus replay (now ErrSign). Tie: generated submission histories (duplicates in one block / later "
                   "block / after reorganisation, TxHeight inside and outside small windows, expired, low-fee, wrong chain id, "
                   "unpayable, mis-signed with and without the hash in the pool) offered as peer blocks and to the node's own "
                   "block production (ExecBlock with errReturn=false on the tip); results, surviving transactions, chain, "
